@@ -413,6 +413,13 @@ def near_node(g, pts):
     return flat(pts)[j] + g.normal(size=flat(pts).shape[1]) * 0.3 * extent_of(pts) / max(len(pts), 1) ** 0.5
 
 
+def outside_centre(g, pts):
+    p2 = flat(pts)
+    v = g.normal(size=p2.shape[1])
+    v /= np.linalg.norm(v)
+    return p2.mean(axis=0) + float(g.uniform(4.0, 8.0)) * extent_of(pts) * v
+
+
 def far_centre(g, pts):
     p2 = flat(pts)
     v = g.normal(size=p2.shape[1])
@@ -519,7 +526,7 @@ def lattice_case(col, g, kind, rep, meta):
 # histories of queries and reassignments on one instance
 # ----------------------------------------------------------------------------------------------------------------------
 FIXED_PATTERNS = ["QQ", "QPQ", "PQ", "QWQ", "QPWQ", "IPQ", "QPI", "QPQPQ", "ZPZ", "QPQWQ", "WPQ", "QQPQQ", "QIQ", "TPQ", "QPT", "QPPQ",
-                  "EPQ", "QPE", "QEQ", "EQ", "QPQPQP"]
+                  "EPQ", "QPE", "QEQ", "EQ", "QPQPQP", "QO", "OQ", "TO", "OT", "QOQ", "OO", "OPO", "QOWO", "ZO", "EO"]
 
 
 def new_points(g, pts, variant):
@@ -578,6 +585,9 @@ def history_case(col, g, kind, pattern, rep, meta):
                 c, r = near_node(g, pts), np.inf
             elif op == "E":
                 c, r = far_centre(g, pts), 0.5 * extent_of(pts)
+            elif op == "O":                                       # centre outside the cloud, large radius, part of the points inside
+                c = outside_centre(g, pts)
+                r = gap_radius(pts, c, max(1, n // 2))
             elif op == "Z":
                 c, r = flat(pts)[int(g.integers(0, n))].copy(), 0.0
             else:
@@ -805,8 +815,8 @@ def all_patterns(maxlen):
 
 
 def random_pattern(g, m):
-    s = "".join(g.choice(list("QQQPPWEIZT"), m))
-    return s if s[-1] in "QEIZT" else s + "Q"
+    s = "".join(g.choice(list("QQQPPWEIZTOO"), m))
+    return s if s[-1] in "QEIZTO" else s + "Q"
 
 
 def group_localgrid(col, tier, seed, kinds=None, rclasses=None):
@@ -845,7 +855,7 @@ def group_history(col, tier, seed, kinds=None, patterns=None):
                 p = p.replace("P", "W")
             if kind.startswith("PeriodicGrid"):
                 p = p.replace("I", "")
-            if not p or p in seen or not any(ch in p for ch in "QEIZT"):
+            if not p or p in seen or not any(ch in p for ch in "QEIZTO"):
                 continue
             seen.add(p)
             history_case(col, g, kind, p, rep, meta)
